@@ -650,8 +650,10 @@ static Plan gen_C17(uint64_t seed, Rng &r) {
         // retarget node arguments
         switch (o.kind) {
         case OP_EMIT: case OP_QUERY: case OP_QLT: case OP_FETCH: case OP_CHARGE: case OP_FLOOD: o.a[2] = node; break;
-        case OP_PROBE: if (o.a[3] == 100) o.a[3] = 100 + node; if (o.a[4] == 100) o.a[4] = 100 + node; o.a[7] = node + 1; break;
+        case OP_PROBE: if (o.a[3] == 100) o.a[3] = 100 + node; if (o.a[4] == 100) o.a[4] = 100 + node; o.a[7] = 0; break;
         case OP_RESET: o.a[4] = node; break;
+        case OP_DISCOVER: // the history must not depend on what the other segment did: explicit station list
+            o.a[5] = r.chance(0.2) ? 2 : 1; o.a[6] = r.range(0, 6); o.a[7] = r.chance(0.5) ? -1 : r.range(0, 6); o.blob = {(uint8_t)node}; break;
         case OP_STRAY: if (o.a[3] >= 0) o.a[3] = node; break;
         case OP_TICK: o.a[0] = node; break;
         case OP_RAW: o.a[0] = node; break;
@@ -659,9 +661,7 @@ static Plan gen_C17(uint64_t seed, Rng &r) {
         default: break;
         }
         if (i < 2 && r.chance(0.5)) o.dt = 0; // first frames back to back
-        // every frame of this op reaches `node` only
-        Fault f; f.kind = F_DROP; f.a = 1 << (1 - node);
-        o.f.push_back(f);
+        o.only = node; // every frame of this op reaches `node` only
         p.ops.push_back(o);
     }
     return p;
